@@ -641,19 +641,22 @@ def two_flushes_family(thin: int = 1) -> List[dict]:
     cases: List[dict] = []
     slow = {"async": True, "wait": True}
     probes = [[["any", 0]], [["any", 1]], [["any", 2], ["any", 1]], [["incb", 0]]]
-    for size in (3, None):
+    for size, into in ((3, "end"), (None, "end"), (3, "cancel"), (None, "cancel")):
+        # into: how the tasks get into their slow callback - by returning (end callback) or by being cancelled (cancel callback)
+        into_cb = ({"op": "gate", "k": 0, "place": "inline"} if into == "end" else {"op": "cancel", "pool": 0, "refs": [["live", 0]], "place": "inline"})
         for re_a, re_b in ((True, True), (False, True), (True, False)):
             for a, b, c in itertools.product(range(2), range(3), range(3)):
                 for pr in probes:
                     for k, k2 in ((0, 0), (1, 0), (0, 1), (2, 0)):
-                        sp = {"op": "spawn", "pool": 0, "kind": "apply", "num": 3, "place": "inline", "ecb": dict(slow), "worker": {"script": [["wait"]], "fname": "w"}}
+                        sp = {"op": "spawn", "pool": 0, "kind": "apply", "num": 3, "place": "inline", ("ecb" if into == "end" else "ccb"): dict(slow),
+                              "worker": {"script": [["wait"]], "fname": "w"}}
                         fa = {"op": "flush", "pool": 0, "place": "eager", **({"re": True} if re_a else {})}
                         fb = {"op": "flush", "pool": 0, "place": "task", **({"re": True} if re_b else {})}
-                        steps = [sp, {"op": "tick", "k": 3}, {"op": "gate", "k": 0, "place": "inline"}]
+                        steps = [sp, {"op": "tick", "k": 3}, dict(into_cb)]
                         _ticks(steps, a + 1)
                         steps.append(fa)
                         _ticks(steps, b)
-                        steps.append({"op": "gate", "k": 0, "place": "inline"})
+                        steps.append(dict(into_cb))
                         _ticks(steps, c)
                         steps.append(fb)
                         steps.append({"op": "gate", "k": k, "place": "inline"})
